@@ -1,7 +1,7 @@
 (* Props/C09.v - The case report states what was computed.
    Only statements; every proof is [exact <lemma>] from Proofs/. *)
 From Coq Require Import String Ascii QArith Qabs ZArith List Bool.
-From Verif Require Import Model.Fmt Model.Float Model.Report Gen.ReportLabels Proofs.FmtProofs Proofs.FmtSciProofs Proofs.FloatProofs Proofs.ReportProofs Proofs.ReportGenProofs.
+From Verif Require Import Model.Fmt Model.Float Model.Report Gen.ReportLabels Proofs.FmtProofs Proofs.FmtSciProofs Proofs.FmtGenProofs Proofs.FloatProofs Proofs.ReportProofs Proofs.ReportGenProofs.
 Import ListNotations.
 
 (* ---- figures: rounded to the displayed precision --------------------------------------------------------- *)
@@ -57,6 +57,17 @@ Theorem C09_sci_text_is_rounded_value :
     (Qabs (z - q) <= (1#2) * Qpow10 (x - Z.of_nat p))%Q /\ (Qpow10 x <= Qabs z /\ Qabs z < Qpow10 (x + 1))%Q.
 Proof. exact fmt_e_value. Qed.
 Print Assumptions C09_sci_text_is_rounded_value.
+
+(* general format, format(q, 'w.pg') (the gradient lines): P = max p 1 significant digits, trailing zeros removed, positional
+   for -4 <= x < P and exponent form otherwise.  For every q <> 0, width and precision the text reads back - as a plain
+   decimal or as d.ddde+xx - as a decimal z with 10^x <= |z| < 10^(x+1) within half a unit of its P-th significant digit. *)
+Theorem C09_general_text_is_rounded_value :
+  forall q w p, ~ (q == 0)%Q ->
+  let prec := match p with O => 1%nat | _ => p end in
+  exists z x, (parse_dec (fmt_g (Fin q) w p) = Some z \/ parse_sci (fmt_g (Fin q) w p) = Some z) /\
+    (Qabs (z - q) <= (1#2) * Qpow10 (x - Z.of_nat prec + 1))%Q /\ (Qpow10 x <= Qabs z /\ Qabs z < Qpow10 (x + 1))%Q.
+Proof. exact fmt_g_value. Qed.
+Print Assumptions C09_general_text_is_rounded_value.
 
 (* ---- profile tables: one row per year, in order, reading the right index --------------------------------- *)
 
@@ -227,6 +238,10 @@ Example C09_ex_sci : fmt_e true (Fin (12345#100000000)) 10 2 = "  1.23E-04"%stri
   /\ fmt_e false (Fin (99950#1)) 0 2 = "1.00e+05"%string
   /\ sig_round (99950#1) 3 = (100%Z, 5%Z)
   /\ parse_sci "  1.23E-04" = Some ((1 * (inject_Z 123 / inject_Z (pow10 2)) * Qpow10 (-4))%Q).
+Proof. vm_compute. repeat split; reflexivity. Qed.
+
+Example C09_ex_general : fmt_g (Fin (74#1)) 10 4 = "        74"%string /\ fmt_g (Fin (12345#100000000)) 0 4 = "0.0001234"%string
+  /\ fmt_g (Fin (123456#1)) 10 4 = " 1.235e+05"%string /\ fmt_g (Fin (-(5#2))) 0 1 = "-2"%string.
 Proof. vm_compute. repeat split; reflexivity. Qed.
 
 Example C09_ex_comma : fmt_fc (Fin (1234567891#1000)) 0 2 = "1,234,567.89"%string /\ fmt_fc (Fin (-(999995#1000))) 0 2 = "-1,000.00"%string
